@@ -24,7 +24,7 @@ import (
 	"pgregory.net/rapid"
 )
 
-var vfC07Attacks = []string{"extra-answer", "extra-additional", "authority-ns-victim", "cname-in-message", "dname-in-message", "upward-referral", "sideways-referral", "self-referral",
+var vfC07Attacks = []string{"extra-answer", "extra-additional", "authority-ns-victim", "cname-in-message", "dname-in-message", "upward-referral", "sideways-referral", "offpath-referral", "self-referral",
 	"mixed-owner-referral", "glue-out-of-zone", "glue-lookalike", "glue-unroutable", "wrong-id-first", "wrong-question-first", "wrong-question-error", "wrong-question-error", "chaos-referral", "victim-soa-negative", "ns-in-answer"}
 
 type vfC07Step struct {
@@ -98,6 +98,13 @@ func vfC07Decorate(c *vfC07Case, attack string, n int, evilIP string, req, resp 
 	case "sideways-referral":
 		referral(vfC07NS(v, "ns1."+vfC07Evil))
 		resp.Extra = append([]dns.RR{vfC07A("ns1."+vfC07Evil, eip)}, keepOPT()...)
+	case "offpath-referral":
+		// in the attacker's bailiwick, but not on the way to the name that was asked: a real sub-zone whose honest
+		// server would then be asked about names it has nothing to do with
+		if !strings.HasSuffix(strings.ToLower(q.Name), "sub."+vfC07Evil) {
+			referral(vfC07NS("sub."+vfC07Evil, "ns1.sub."+vfC07Evil))
+			resp.Extra = append([]dns.RR{vfC07A("ns1.sub."+vfC07Evil, net.ParseIP(c.W.Zones["sub."+vfC07Evil].Servers[0]).To4())}, keepOPT()...)
+		}
 	case "self-referral":
 		referral(vfC07NS(vfC07Evil, "ns1."+vfC07Evil))
 		resp.Extra = append([]dns.RR{vfC07A("ns1."+vfC07Evil, eip)}, keepOPT()...)
@@ -110,8 +117,8 @@ func vfC07Decorate(c *vfC07Case, attack string, n int, evilIP string, req, resp 
 		resp.Extra = append([]dns.RR{vfC07A(vns, eip), vfC07A(www, vfC07Marker(6))}, keepOPT()...)
 	case "glue-lookalike":
 		// an NS host whose name merely ends in the zone's characters (ns1.xevil.test. under evil.test.), with "glue"
-		referral(vfC07NS("sub."+vfC07Evil, "ns1.x"+vfC07Evil))
-		resp.Extra = append([]dns.RR{vfC07A("ns1.x"+vfC07Evil, eip)}, keepOPT()...)
+		referral(vfC07NS("sub."+vfC07Evil, "ns9.x"+vfC07Evil))
+		resp.Extra = append([]dns.RR{vfC07A("ns9.x"+vfC07Evil, eip)}, keepOPT()...)
 	case "glue-unroutable":
 		referral(vfC07NS("sub."+vfC07Evil, "ns1.sub."+vfC07Evil), vfC07NS("sub."+vfC07Evil, "ns2.sub."+vfC07Evil))
 		resp.Extra = append([]dns.RR{vfC07A("ns1.sub."+vfC07Evil, net.IPv4(127, 0, 0, 1).To4()), vfC07A("ns2.sub."+vfC07Evil, net.IPv4(127, 0, 0, 53).To4())}, keepOPT()...)
@@ -162,7 +169,7 @@ func vfC07Gen(rt *rapid.T) *vfC07Case {
 		{Apex: c.Victim, Signed: c.VictimSecure, Owners: map[string][]uint16{"www." + c.Victim: {dns.TypeA}, "mail." + c.Victim: {dns.TypeA, dns.TypeMX}, "t." + c.Victim: {dns.TypeA, dns.TypeTXT}}},
 	}
 	if c.Glueless = rapid.IntRange(0, 2).Draw(rt, "glueless") == 0; c.Glueless {
-		specs[len(specs)-1].NSHost = "ns1.x" + vfC07Evil
+		specs[len(specs)-1].NSHost = "ns9.x" + vfC07Evil
 	}
 	if c.Victim == "victim.org." && c.VictimSecure {
 		specs[2].Signed = true
@@ -173,7 +180,7 @@ func vfC07Gen(rt *rapid.T) *vfC07Case {
 		c.Attacks = append(c.Attacks, rapid.SampledFrom(vfC07Attacks).Draw(rt, "attack"))
 	}
 	evilQ := []string{"a." + vfC07Evil, "b." + vfC07Evil, "c." + vfC07Evil, "nx." + vfC07Evil, "a.sub." + vfC07Evil, "x.sub." + vfC07Evil, vfC07Evil}
-	victimQ := []string{"t." + c.Victim, "www." + c.Victim, "mail." + c.Victim, c.Victim, "nx." + c.Victim, "test.", "ns1.x" + vfC07Evil, "www.x" + vfC07Evil}
+	victimQ := []string{"t." + c.Victim, "www." + c.Victim, "mail." + c.Victim, c.Victim, "nx." + c.Victim, "test.", "ns9.x" + vfC07Evil, "www.x" + vfC07Evil}
 	steps := rapid.IntRange(2, 7).Draw(rt, "nsteps")
 	for i := 0; i < steps; i++ {
 		if i > 0 && rapid.IntRange(0, 6).Draw(rt, "sleep") == 0 {
@@ -254,6 +261,20 @@ func vfC07Run(t *testing.T, dir string, c *vfC07Case) (res vfC07Result) {
 			for _, p := range rw.Net.Log()[n0:] {
 				if evil[p.Addr] && !inEvil(p.Name) {
 					fail("step %d: the attacker's server %s was asked %s/%s, a name outside its zone", i, p.Addr, p.Name, dns.TypeToString[p.Qtype])
+				}
+				// O5: an honest server is only asked about names at or below a zone it serves (a referral that is not on
+				// the way to the question sends it questions it has nothing to do with)
+				// (names in the attacker's own zones are exempt: it may delegate them to any host it likes)
+				if zs, ok := c.W.Addrs[p.Addr]; ok && !inEvil(p.Name) {
+					inside := false
+					for _, z := range zs {
+						if vfmodel.IsSubdomain(strings.ToLower(p.Name), z.Apex) {
+							inside = true
+						}
+					}
+					if !inside {
+						fail("step %d: the server %s (serving %s) was asked %s/%s, which lies in none of its zones", i, p.Addr, zs[0].Apex, p.Name, dns.TypeToString[p.Qtype])
+					}
 				}
 			}
 			// O1: nothing foreign in the answer; honest-zone records are the published ones
@@ -359,4 +380,22 @@ func TestVerifC07Bailiwick(t *testing.T) {
 			vfstat.Sample(U, fmt.Sprint(c.Attacks), map[string]any{"attacks": c.Attacks, "victim": c.Victim, "history": tr})
 		}
 	})
+}
+
+// TestVerifC07Debug replays one attack with its trace (VERIF_LOG=1); skipped otherwise.
+func TestVerifC07Debug(t *testing.T) {
+	if os.Getenv("VERIF_LOG") == "" {
+		t.Skip("debug helper")
+	}
+	var c *vfC07Case
+	rapid.Check(t, func(rt *rapid.T) {
+		if c == nil {
+			c = vfC07Gen(rt)
+		}
+	})
+	c.Attacks = []string{os.Getenv("VERIF_ATTACK")}
+	c.QMin = 0
+	c.Steps = []vfC07Step{{Name: "a." + vfC07Evil, Qtype: dns.TypeA}, {Name: "t." + c.Victim, Qtype: dns.TypeA}, {Name: "www." + c.Victim, Qtype: dns.TypeA}, {Name: "t.test.", Qtype: dns.TypeA}}
+	r := vfC07Run(t, t.TempDir(), c)
+	t.Logf("victim=%s glueless=%v violation=%q\n%s", c.Victim, c.Glueless, r.Violation, strings.Join(r.Trace, "\n"))
 }
